@@ -14,7 +14,7 @@ import types
 
 import z3
 
-from .values import (Sym, PObj, PList, PDict, PSet, DictView, JsonText, BoundMethod, BuiltinMethod, Closure,
+from .values import (Sym, PObj, PList, PGenList, PDict, PSet, DictView, JsonText, BoundMethod, BuiltinMethod, Closure,
                      SuperProxy, Foreign, Opaque, Unsupported, AnyVal, LockVal, V, mk, kind_of, is_sym, z3_of, to_U, py_eq_scalar,
                      truthy_scalar, sym_not, sym_and, sym_or, as_z3_bool, ite_value, NUM, u_is_num, u_numval)
 
@@ -1419,6 +1419,8 @@ def fully_concrete(v, seen=None):
         return False
     if isinstance(v, JsonText):
         return False
+    if isinstance(v, PGenList):
+        return False
     if isinstance(v, PList):
         return all(fully_concrete(x) for x in v.items)
     if isinstance(v, tuple):
@@ -1463,6 +1465,10 @@ def json_snapshot(I, v, encoder=None):
         return v
     if isinstance(v, JsonText):
         return v
+    if isinstance(v, PGenList):
+        if kind_of(v.gen) != 'str':
+            raise Unsupported('json of a list of unknown length whose elements are not strings')
+        return PGenList(v.n, v.gen, v.new_elem, core=v.core)       # immutable: a copy is the same sequence of strings
     if isinstance(v, (PList, tuple)):
         return PList([json_snapshot(I, x, encoder) for x in (v.items if isinstance(v, PList) else v)])
     if isinstance(v, PDict):
@@ -1498,6 +1504,8 @@ def m_json_dumps(I, args, kw):
 
 def json_copy(v, sort_keys=False):
     """the value json.loads gives back; with sort_keys the text lists the keys in sorted order, and so does the decoded dict"""
+    if isinstance(v, PGenList):
+        return PGenList(v.n, v.gen, v.new_elem, core=v.core)
     if isinstance(v, PList):
         return PList([json_copy(x, sort_keys) for x in v.items])
     if isinstance(v, PDict):
@@ -1593,6 +1601,12 @@ def json_value_eq(I, a, b, sorted_keys):
             if common_a != common_b:
                 raise Unsupported('json text equality with differing key order')
         return sym_and(*conj)
+    if isinstance(a, PGenList) or isinstance(b, PGenList):
+        if isinstance(a, PGenList) and isinstance(b, PGenList) and a.core is b.core:
+            return True
+        if not isinstance(a, (PList, PDict)) and not is_sym(a) or not isinstance(b, (PList, PDict)) and not is_sym(b):
+            return False
+        raise Unsupported('json text equality between a list of unknown length and another list')
     if isinstance(a, PList) and isinstance(b, PList):
         if len(a.items) != len(b.items):
             return False
